@@ -3,7 +3,7 @@ import itertools
 
 from ..runner import Outcome, HarnessError
 from .. import ast as A, ref as R, names as N, lang, util
-from ..util import F
+from ..util import F, G
 
 PROPERTY = 'C01'
 RULE = ('case = (pattern AST, flag configuration, name); patterns: every AST within a token budget (atoms a b . ? * [a.] [!a], '
@@ -321,11 +321,54 @@ def run_posix(desc):
                                   size=10, bucket=('brackets', text))
                     break
         out.nontrivial(('brackets', text))
+    # a pattern that starts with `!(` is an extended group under EXTMATCH also when NEGATE (and NEGATEALL) are set - as str and as bytes,
+    # through every entry point: the answers are those without NEGATE
+    neg_pats = ['!(a|b)', '!(a)', '!(*.txt)', '!(a)*', '!(!(a))', '!()', '!(a|b)c', '!(?)', '!([ab])x']
+    neg_names = ['a', 'b', 'c', 'ab', 'ac', 'bc', 'a.txt', 'x', 'ax', 'cx', '', '!(a)', '(a)', '(a|b)', '!']
+    for mod in (F, G):
+        for pat in neg_pats:
+            for extra in (mod.NEGATE, mod.NEGATE | mod.NEGATEALL, mod.NEGATE | mod.DOTMATCH, mod.NEGATE | mod.SPLIT):
+                for conv in (lambda x: x, lambda x: x.encode()):
+                    names = [conv(n) for n in neg_names]
+                    base = mod.EXTMATCH | (extra & ~(mod.NEGATE | mod.NEGATEALL))
+                    flt = mod.filter if mod is F else mod.globfilter
+                    one = mod.fnmatch if mod is F else mod.globmatch
+                    try:
+                        want = flt(names, conv(pat), flags=base)
+                        got = flt(names, conv(pat), flags=base | extra)
+                        got1 = [n for n in names if one(n, conv(pat), flags=base | extra)]
+                        got2 = [n for n in names if mod.compile(conv(pat), flags=base | extra).match(n)]
+                    except Exception as e:
+                        out.violation({'mode': 'fn' if mod is F else 'gl', 'pattern': pat, 'cfg': {'ext': True}, 'name': neg_names[0], 'verdict': R.MUSTNOT,
+                                       'impl': type(e).__name__, 'stream': 'neg-opener', 'raw': True, 'problem': 'exception', 'flags': base | extra},
+                                      size=10, bucket=('neg-opener-exc', pat))
+                        continue
+                    out.evaluations += 3 * len(names)
+                    for label, g in (('filter', got), ('match', got1), ('compiled', got2)):
+                        if g != want:
+                            d = sorted(set(g) ^ set(want))[0]
+                            out.violation({'mode': 'fn' if mod is F else 'gl', 'pattern': pat, 'cfg': {'ext': True}, 'name': d if isinstance(d, str) else d.decode(),
+                                           'bytes': isinstance(d, bytes), 'verdict': R.MUST if d in want else R.MUSTNOT, 'impl': d in g, 'entry': label,
+                                           'stream': 'neg-opener', 'raw': True, 'flags': base | extra, 'flags_without_negate': base,
+                                           'problem': 'a leading `!(` under EXTMATCH is answered differently when NEGATE is set'},
+                                          size=10, bucket=('neg-opener', pat))
+                            break
+            out.nontrivial(('neg-opener', mod.__name__, pat))
     out.sample({'pattern': '[[:punct:]]', 'names': len(chars), 'stream': 'posix'})
     return out
 
 
 def replay(case):
+    if case.get('stream') == 'neg-opener':
+        mod = F if case['mode'] == 'fn' else G
+        conv = (lambda x: x.encode()) if case.get('bytes') else (lambda x: x)
+        one = mod.fnmatch if mod is F else mod.globmatch
+        try:
+            a = bool(one(conv(case['name']), conv(case['pattern']), flags=case['flags']))
+            b = bool(one(conv(case['name']), conv(case['pattern']), flags=case['flags_without_negate']))
+        except Exception as e:
+            return False, {'exception': type(e).__name__}
+        return a == b, {'with_negate': a, 'without': b}
     if case.get('raw'):
         try:
             F.compile(case['pattern'], flags=F.DOTMATCH | F.EXTMATCH)
